@@ -62,6 +62,8 @@ struct evscn {
 	struct iv_event	done[NPOST];
 	int		ndone;
 	int		victims_left;
+	int		self_left;		/* posts the owner still makes to its own events from its handlers (same queue as the remote posts) */
+	unsigned	self_rot;
 	pthread_barrier_t bar;
 	int		nposts;
 };
@@ -86,6 +88,12 @@ static void ev_perm_cb(void *c)
 		E.victim->handler = ev_perm_cb;
 		iv_event_register(E.victim);
 		atomic_store(&E.victim_state, 1);
+	}
+	/* the owner posts to its own loop while the remote posts keep arriving */
+	if (E.self_left > 0 && (++E.self_rot & 1)) {
+		E.self_left--;
+		iv_event_post(&E.perm[E.self_rot % NEV]);
+		CNT(cnt_posts, 1);
 	}
 }
 
@@ -149,6 +157,7 @@ static void scn_events(int nposts)
 	for (i = 0; i < 8; i++) atomic_store(&done_flag[i], 0);
 	E.nposts = nposts;
 	E.victims_left = 50;
+	E.self_left = nposts;
 	iv_init();
 	for (i = 0; i < NEV; i++) {
 		IV_EVENT_INIT(&E.perm[i]);
